@@ -1514,15 +1514,34 @@ def _check_case(ctx, res, spec, case, quick_crash, kind):
     # injected fault and did not get the snapshot onto the disk, the next step that is a save by the documented triggers
     # (saveParameters(), or an update of an `auto` parameter, undisturbed, no write pending) must work again
     flags = {p['name']: p['flag'] for p in spec['params']}
+    # Not demanded by the statement: that a module notices that somebody took its file away.  From the moment a wipe removed the
+    # file until the next snapshot reaches the disk, a step that touches no file while its data are Python-== to what the file held
+    # when it was taken away is excused by the two judges that ask "why did this save do nothing?" (retry along the history, round
+    # trip after a silent save).  With any other data they judge as ever.
+    excused, taken_away, on_disk = [False] * len(steps), False, None
+    for i, rec in enumerate(steps):
+        if i > 0 and case['acts'][i - 1]['a'] == 'wipe':
+            if rec['pre'][0] is not None and rec['target'] is None:
+                taken_away = True
+                try:
+                    on_disk = json.loads(rec['pre'][0].decode('utf-8'))
+                except ValueError:
+                    on_disk = None
+            continue
+        if rec['evs'] and rec['target'] is not None and rec['target'] == new_bytes(rec['data']):
+            taken_away = False
+        excused[i] = taken_away and not rec['evs'] and rec['data'] == on_disk
     failed_at = None
     for i, rec in enumerate(steps):
-        if i == 0:
+        if i == 0 or case['acts'][i - 1]['a'] == 'wipe':
             continue
         act = case['acts'][i - 1]
         newb = new_bytes(rec['data'])
         due = (act.get('fault') is None and not steps[i - 1]['writeDict'] and not rec['raised']
                and (act['a'] == 'save' or (act['a'] == 'set' and flags.get(act['name']) == 'auto')))
-        if failed_at is not None and due:
+        if failed_at is not None and due and excused[i]:
+            res.count('retry.in-history.after-wipe.excused')
+        elif failed_at is not None and due:
             reqs.append({'p': 'C17', 'k': 'judge_retry', 'new': newb.hex(), 'mid': hexo(rec['pre'][0]),
                          'fin': hexo(rec['target']), 'ops2': len(rec['evs'])})
             tags.append(('retry-line', (failed_at, i)))
@@ -1545,15 +1564,8 @@ def _check_case(ctx, res, spec, case, quick_crash, kind):
             r = restart(spec, target, tmp)
             cache[key] = r
         return cache[key]
-    on_disk, taken_away = None, False
     for i, rec in enumerate(steps):
         if i > 0 and case['acts'][i - 1]['a'] == 'wipe':
-            if rec['pre'][0] is not None and rec['target'] is None:
-                taken_away = True
-                try:
-                    on_disk = json.loads(rec['pre'][0].decode('utf-8'))
-                except ValueError:
-                    on_disk = None
             continue
         if not rec['evs']:
             # a step that is a save by the documented triggers (saveParameters(), or a change of an `auto` parameter, while
@@ -1563,7 +1575,7 @@ def _check_case(ctx, res, spec, case, quick_crash, kind):
             act = case['acts'][i - 1] if i > 0 else None
             if (act is not None and act.get('fault') is None and not rec['raised'] and not steps[i - 1]['writeDict']
                     and (act['a'] == 'save' or (act['a'] == 'set' and flags.get(act['name']) == 'auto'))):
-                if taken_away and rec['data'] == on_disk:
+                if excused[i]:
                     res.count('roundtrip.silent-save-after-wipe.excused')
                     continue
                 r = restarted(rec['target'], rec['tmp'])
@@ -1575,7 +1587,6 @@ def _check_case(ctx, res, spec, case, quick_crash, kind):
             continue
         cur = nongiven_saved(spec, ref, rec['values'])
         if rec['target'] is not None and rec['target'] == new_bytes(rec['data']):
-            taken_away = False
             r = restarted(rec['target'], rec['tmp'])
             reqs.append({'p': 'C17', 'k': 'judge_restore', 'saved': [cur],
                          'restored': r['values'] if r['values'] is not None else []})
